@@ -54,7 +54,26 @@ var c09Static = []reflect.Type{
 	localT1(), localT2(), localT3(), tRec, reflect.TypeOf(DeepTop{}), reflect.TypeOf(DeepMid{}),
 }
 
+// Per-call configurations: a cached program must not bake in what is a per-call option.
+// (Index 0 is ConfigStd, the only one compared with encoding/json as well; all encoder
+// configurations sort map keys so that outputs are comparable between executions.)
+var c09EncCfgs = []sonic.API{
+	sonic.ConfigStd,
+	sonic.Config{SortMapKeys: true}.Froze(),
+	sonic.Config{SortMapKeys: true, NoNullSliceOrMap: true}.Froze(),
+	sonic.Config{SortMapKeys: true, EscapeHTML: true, CompactMarshaler: true, NoQuoteTextMarshaler: true}.Froze(),
+}
+var c09DecCfgs = []sonic.API{
+	sonic.ConfigStd,
+	sonic.ConfigDefault,
+	sonic.Config{CaseSensitive: true}.Froze(),
+	sonic.Config{DisallowUnknownFields: true}.Froze(),
+	sonic.Config{CopyString: true, UseNumber: true}.Froze(),
+	sonic.Config{ValidateString: true}.Froze(),
+}
+
 type c09Op struct {
+	Cfg   int
 	Kind  int // 0 Marshal 1 Unmarshal 2 Pretouch 3 PretouchMany
 	T     int
 	V     reflect.Value
@@ -68,9 +87,9 @@ type c09Op struct {
 func (o c09Op) String() string {
 	switch o.Kind {
 	case 0:
-		return fmt.Sprintf("Marshal(T%d)", o.T)
+		return fmt.Sprintf("Marshal(T%d,cfg%d)", o.T, o.Cfg)
 	case 1:
-		return fmt.Sprintf("Unmarshal(T%d)", o.T)
+		return fmt.Sprintf("Unmarshal(T%d,cfg%d)", o.T, o.Cfg)
 	case 2:
 		return fmt.Sprintf("Pretouch(T%d%s)", o.T, o.OptS)
 	default:
@@ -111,11 +130,11 @@ func c09Do(types []reflect.Type, o *c09Op) (res c08Res) {
 	}()
 	switch o.Kind {
 	case 0:
-		b, err := stdAPI.Marshal(o.arg())
+		b, err := c09EncCfgs[o.Cfg].Marshal(o.arg())
 		return c08Res{Out: string(b), Err: errStr(err)}
 	case 1:
 		p := reflect.New(types[o.T])
-		err := stdAPI.Unmarshal([]byte(o.Text), p.Interface())
+		err := c09DecCfgs[o.Cfg].Unmarshal([]byte(o.Text), p.Interface())
 		return c08Res{Val: p.Interface(), Err: errStr(err)}
 	case 2:
 		ty := types[o.T]
@@ -192,6 +211,9 @@ func runC09(c *Ctx) Result {
 		case 0:
 			o.V = z.Value(types[o.T], 0)
 			o.Ptr = []bool{g.d(2) == 0} // Marshal(&v): the value is addressable (matters for pointer-receiver marshalers)
+			if g.d(3) == 0 {
+				o.Cfg = g.d(len(c09EncCfgs))
+			}
 		case 1:
 			v := z.Value(types[o.T], 0)
 			b, err := json.Marshal(v.Interface())
@@ -200,6 +222,22 @@ func runC09(c *Ctx) Result {
 				break
 			}
 			o.Text = string(b)
+			if g.d(3) == 0 {
+				o.Cfg = g.d(len(c09DecCfgs))
+				// what the per-call options are about: a key spelled in another case, an unknown member
+				if i := strings.Index(o.Text, `{"`); i >= 0 && i+2 < len(o.Text) && g.d(2) == 0 {
+					c := o.Text[i+2]
+					if c >= 'a' && c <= 'z' {
+						c -= 32
+					} else if c >= 'A' && c <= 'Z' {
+						c += 32
+					}
+					o.Text = o.Text[:i+2] + string(c) + o.Text[i+3:]
+				}
+				if strings.HasPrefix(o.Text, "{") && len(o.Text) > 2 && g.d(2) == 0 {
+					o.Text = `{"zzunknown":[1,{"x":null}],` + o.Text[1:]
+				}
+			}
 		case 3:
 			n := 1 + g.d(5)
 			o.Ptr = nil
@@ -251,6 +289,9 @@ func runC09(c *Ctx) Result {
 		if r.Panic != "" {
 			return fail("panic:"+c09KindName(o.Kind), fmt.Sprintf("op %d %s panicked: %s", i, o, r.Panic))
 		}
+		if o.Kind <= 1 && o.Cfg != 0 {
+			continue // no encoding/json equivalent: the history-free comparison below decides alone
+		}
 		switch o.Kind {
 		case 0:
 			b, err := json.Marshal(o.arg())
@@ -276,26 +317,42 @@ func runC09(c *Ctx) Result {
 			}
 		}
 	}
-	if len(suspects) == 0 {
-		return res
-	}
-	// arbitration: the same single call with the caches emptied (no history)
-	s := suspects[0]
-	o := &ops[s.i]
+	// The property itself, directly: every codec call of the history is executed once more with
+	// EMPTY program caches and pools (no history), each one after its own reset, and must give
+	// what it gave inside the history. No reference implementation is involved here, so option
+	// sets without an encoding/json equivalent (CaseSensitive ...) are covered too.
 	simrt.PoolTape, simrt.OrderTape = nil, nil
-	simrt.ResetPools()
-	jitdec.SimResetCache(4096)
-	optdec.SimResetCache(4096)
-	vars.SimResetCache(4096)
-	alone := c09Do(types, o)
-	if c08Same(alone, s.ref, false) {
-		return fail("history-dependent:"+c09KindName(o.Kind), fmt.Sprintf("op %d %s gave %s after this history, but %s with empty caches (= reference %s)", s.i, o, got[s.i], alone, s.ref))
+	susp := map[int]c08Res{}
+	for _, s := range suspects {
+		susp[s.i] = s.ref
 	}
-	// the history-free call disagrees with encoding/json as well: outside the subset where
-	// encoding/json is a valid reference (C01/C03 material), not history dependence
-	c.inc("harness_ref_disagrees_without_history")
-	if noClip {
-		fmt.Printf("REFDISAGREE %s %v: sonic %s json %s\n", o, types[o.T], alone, s.ref)
+	for i := range ops {
+		o := &ops[i]
+		if o.Kind > 1 {
+			continue
+		}
+		simrt.ResetPools()
+		jitdec.SimResetCache(4096)
+		optdec.SimResetCache(4096)
+		vars.SimResetCache(4096)
+		alone := c09Do(types, o)
+		if !c08Same(alone, got[i], true) {
+			return fail("history-dependent:"+c09KindName(o.Kind), fmt.Sprintf("op %d %s gave %s after this history, but %s with empty caches", i, o, got[i], alone))
+		}
+		c.inc("calls_checked_vs_history_free")
+		if ref, bad := susp[i]; bad {
+			// identical with and without history, but different from encoding/json: outside the
+			// subset where encoding/json is a reference (C01/C03 material) - counted only
+			c.inc("harness_ref_disagrees_without_history")
+			if noClip {
+				fmt.Printf("REFDISAGREE %s %v: sonic %s json %s\n", o, types[o.T], alone, ref)
+			}
+		}
+	}
+	for _, s := range suspects {
+		if ops[s.i].Kind > 1 {
+			return fail("pretouch-failed:"+c09KindName(ops[s.i].Kind), fmt.Sprintf("op %d %s returned %s", s.i, &ops[s.i], got[s.i]))
+		}
 	}
 	return res
 }
